@@ -240,7 +240,11 @@ func reqsSummary(r *fnv1.Requirements) []any {
 		case *fnv1.ResourceSelector_MatchName:
 			l = append(l, map[string]any{"k": k, "t": "name", "v": m.MatchName})
 		case *fnv1.ResourceSelector_MatchLabels:
-			l = append(l, map[string]any{"k": k, "t": "labels", "v": m.MatchLabels.GetLabels()["grp"]})
+			v := m.MatchLabels.GetLabels()["grp"]
+			if sub, ok := m.MatchLabels.GetLabels()["sub"]; ok {
+				v += "+" + sub
+			}
+			l = append(l, map[string]any{"k": k, "t": "labels", "v": v})
 		}
 	}
 	return sortBy(l, "k")
@@ -299,9 +303,14 @@ func byName(n string) *fnv1.ResourceSelector {
 	return &fnv1.ResourceSelector{ApiVersion: "ex.org/v1", Kind: "Extra", Match: &fnv1.ResourceSelector_MatchName{MatchName: n}}
 }
 
+// byLabel: "g" selects {grp: g}, "g+1" selects {grp: g, sub: 1}.
 func byLabel(v string) *fnv1.ResourceSelector {
+	l := map[string]string{"grp": v}
+	if g, sub, ok := strings.Cut(v, "+"); ok {
+		l = map[string]string{"grp": g, "sub": sub}
+	}
 	return &fnv1.ResourceSelector{ApiVersion: "ex.org/v1", Kind: "Extra",
-		Match: &fnv1.ResourceSelector_MatchLabels{MatchLabels: &fnv1.MatchLabels{Labels: map[string]string{"grp": v}}}}
+		Match: &fnv1.ResourceSelector_MatchLabels{MatchLabels: &fnv1.MatchLabels{Labels: l}}}
 }
 
 // progOf reads the program and the marker a function finds in its input.
@@ -420,6 +429,12 @@ func runProgram(req *fnv1.RunFunctionRequest) *fnv1.RunFunctionResponse {
 			sel["k1"] = byLabel("g")
 		} else {
 			sel["k1"] = byLabel("h")
+		}
+	case "widen":
+		if _, given := req.GetExtraResources()["k1"]; given {
+			sel["k1"] = byLabel("g")
+		} else {
+			sel["k1"] = byLabel("g+1")
 		}
 	case "count":
 		n := count
@@ -737,7 +752,11 @@ func newWorld(in input) *world {
 	// extra resources: e1, e2 (label grp=g) as the vector says; e9 (grp=h) and a same-named object of another kind always
 	extra := func(kind, name, grp string) {
 		u := unstr(schema.GroupVersionKind{Group: "ex.org", Version: "v1", Kind: kind}, name, "")
-		u.SetLabels(map[string]string{"grp": grp})
+		sub := "2"
+		if name == "e1" {
+			sub = "1"
+		}
+		u.SetLabels(map[string]string{"grp": grp, "sub": sub})
 		s.Put(u)
 	}
 	for _, n := range in.Extras {
